@@ -30,7 +30,7 @@ def objective(E, M, rvec, xabs):
 
 
 def mk_model(E, n, m, num_pts, npt_so_far, with_h=False, xr=True, with_save=None, box=True, cnt_hi=3,
-             nan_strong=True):
+             nan_strong=True, kopt_minimal=True):
     """
     An arbitrary Model state satisfying the bookkeeping invariant:
       objval[k] = F(fval_v[k], xbase+points[k]);  kopt minimal (NaN-aware);  nsamples >= 1;
@@ -62,8 +62,9 @@ def mk_model(E, n, m, num_pts, npt_so_far, with_h=False, xr=True, with_save=None
     kopt = int(kopt)
     M.kopt = kopt
     # incumbent is minimal: no stored objective strictly smaller; and not NaN if some value is not NaN
-    E.assume(E.all([E.no(M.objval[k] < M.objval[kopt]) for k in range(npt_so_far)]))
-    if xr and nan_strong:
+    if kopt_minimal:
+        E.assume(E.all([E.no(M.objval[k] < M.objval[kopt]) for k in range(npt_so_far)]))
+    if xr and nan_strong and kopt_minimal:
         anyok = E.any([E.no(E.isnan(M.objval[k])) for k in range(npt_so_far)])
         E.assume(E.implies(anyok, E.no(E.isnan(M.objval[kopt]))))
     ghost = []
@@ -83,7 +84,25 @@ def mk_model(E, n, m, num_pts, npt_so_far, with_h=False, xr=True, with_save=None
     M.model_jac = E.mat('J', m, n)
     M.model_const = E.vec('c', m)
     M.model_jac_eval_nums = E.vec('je', npt_so_far, dtype='i', lo=1)
+    if not kopt_minimal:
+        # weaker, inductive form: the better of incumbent and saved point is a lower bound of every stored objective
+        # (the incumbent itself may have been overwritten by a worse point after its value was saved)
+        F = final_obj_spec(E, M)
+        E.assume(E.all([E.no(M.objval[k] < F) for k in range(npt_so_far)]))
+        if xr:
+            anyok = E.any([E.no(E.isnan(M.objval[k])) for k in range(npt_so_far)])
+            E.assume(E.implies(anyok, E.no(E.isnan(F))))
     return M, ghost
+
+
+def final_obj_spec(E, M):
+    """specification of the value get_final_results must report: the better of incumbent and saved point (no fork)"""
+    fo = M.objval[int(M.kopt)]
+    if M.objsave is None:
+        return fo
+    fs = M.objsave
+    use_opt = E.any([fo <= fs, E.all([E.isnan(fs), E.no(E.isnan(fo))])])
+    return E.ite(use_opt, fo, fs)
 
 
 
@@ -96,7 +115,11 @@ PRESETS = {
     'default': (False, {}),
     'noise': (True, {}),
     'hard-restarts': (False, {'restarts.use_restarts': True, 'restarts.use_soft_restarts': False}),
-    'soft-restarts': (False, {'restarts.use_restarts': True, 'restarts.use_soft_restarts': True}),
+    'soft-restarts': (False, {'restarts.use_restarts': True, 'restarts.use_soft_restarts': True, 'restarts.soft.num_geom_steps': 1,
+                              'restarts.auto_detect': False}),
+    'soft-restarts-autodetect': (False, {'restarts.use_restarts': True, 'restarts.use_soft_restarts': True, 'restarts.soft.num_geom_steps': 1}),
+    'soft-restarts-2geom': (False, {'restarts.use_restarts': True, 'restarts.use_soft_restarts': True, 'restarts.soft.num_geom_steps': 2,
+                                    'restarts.auto_detect': False}),
     'soft-restarts-moreopts': (False, {'restarts.use_restarts': True, 'restarts.use_soft_restarts': True,
                                        'restarts.soft.move_xk': False, 'restarts.increase_npt': True}),
     'regression-momentum': (False, {'regression.num_extra_steps': 1, 'regression.momentum_extra_steps': True}),
@@ -136,7 +159,8 @@ def mk_objfun(E, m, log, xr=False, raise_at=None):
         if raise_at is not None and k == raise_at:
             log.calls.append({'x': x.copy(), 'r': None, 'raised': True})
             raise UserObjfunError("user objective raised at call %d" % k)
-        r = E.vec('f%d_' % k, m, xr=xr)
+        # finite residuals are kept below the overflow guard (|r| < 1e150); the guard itself is decided in the XR harnesses
+        r = E.vec('f%d_' % k, m, xr=xr, lo=(None if xr else -10 ** 150), hi=(None if xr else 10 ** 150))
         log.calls.append({'x': x.copy(), 'r': r})
         return r
     return objfun
@@ -147,7 +171,7 @@ class UserObjfunError(Exception):
 
 
 def mk_controller(E, n, m, num_pts, npt_so_far, preset='default', with_h=False, xr=False, with_save=None,
-                  maxfun_hi=None, objfun=None):
+                  maxfun_hi=None, objfun=None, kopt_minimal=True):
     """
     An arbitrary Controller state satisfying INV (see DESIGN section 3):
       1 <= nx <= nf <= maxfun; eval numbers of occupied slots in [1, nx];
@@ -156,7 +180,7 @@ def mk_controller(E, n, m, num_pts, npt_so_far, preset='default', with_h=False, 
     np = E.np
     maxfun = E.int('maxfun', 1, maxfun_hi)
     params = mk_params(E, n, num_pts, maxfun, preset)
-    M, ghost = mk_model(E, n, m, num_pts, npt_so_far, with_h=with_h, xr=xr, with_save=with_save)
+    M, ghost = mk_model(E, n, m, num_pts, npt_so_far, with_h=with_h, xr=xr, with_save=with_save, kopt_minimal=kopt_minimal)
     Controller = E.get('Controller')
     rhobeg = E.real('rhobeg', npy=False)
     rhoend = E.real('rhoend', npy=False)
@@ -175,7 +199,9 @@ def mk_controller(E, n, m, num_pts, npt_so_far, preset='default', with_h=False, 
         E.assume(M.eval_num_save <= C.nx)
     C.delta = E.real('delta', npy=False)
     C.rho = E.real('rho', npy=False)
-    E.assume(E.all([0 < rhoend, rhoend <= C.rho, C.rho <= rhobeg, C.rho <= C.delta, C.delta <= E.const(10 ** 10)]))
+    # rhobeg <= 1e9: beyond 6.67e9 the code itself exceeds its 1e10 cap on delta (1.5*rho), see the C18 radii harness
+    E.assume(E.all([0 < rhoend, rhoend <= C.rho, C.rho <= rhobeg, C.rho <= C.delta, C.delta <= E.const(10 ** 10),
+                    rhobeg <= E.const(10 ** 9)]))
     C.diffs = [E.real('diff%d' % i, npy=False, lo=0) for i in range(3)]
     C.last_successful_iter = E.int('lsi', 0, None)
     C.last_successful_run = E.int('lsr', 0, None)
